@@ -14,6 +14,9 @@ use std::marker::PhantomData;
 use std::num::NonZeroUsize;
 use std::ops::{Deref, DerefMut};
 use std::sync::atomic::Ordering as AtomicOrdering;
+#[cfg(html5ever_verif_loom)]
+use loom::sync::atomic::{self, AtomicUsize};
+#[cfg(not(html5ever_verif_loom))]
 use std::sync::atomic::{self, AtomicUsize};
 use std::{hash, io, mem, ptr, str};
 
